@@ -126,3 +126,22 @@ def each_guarded(name, pattern, guards, files=None, window=12, min_hits=1):
                 bad.append('%s:%d in fn %s: call not preceded by a guard within %d lines' % (rel, ln, fn, window))
     ok = not bad and n >= min_hits
     return dict(name=name, kind='frame/guarded', ok=ok, hits=n, detail=bad or ([] if n >= min_hits else ['no call site found']), sample=[])
+
+
+def body_is(name, file, fn, pattern, impl=None):
+    """Obligation: the body of fn, with comments, logging statements and whitespace removed, is exactly `pattern`
+    (a regex).  For one-line forwarders to a dependency, where any extra statement changes what is forwarded."""
+    from . import rules
+    text = read_repo(file)
+    try:
+        loc = rsrc.find_fn(text, fn, impl)
+    except AnchorLost as e:
+        return dict(name=name, kind='frame/body-is', ok=None, hits=0, detail=['anchor lost: %s' % e], sample=[])
+    body = text[loc['body_open'] + 1:loc['body_close']]
+    body, _ = rules.r2_tracing(body)
+    m = mask(body)
+    # drop comments (masked to spaces) but keep code characters
+    code = ''.join(ch for ch, mk in zip(body, m) if not (mk == ' ' and ch != ' '))
+    code = re.sub(r'\s+', '', code)
+    ok = re.fullmatch(pattern, code) is not None
+    return dict(name=name, kind='frame/body-is', ok=ok, hits=1, detail=[] if ok else ['%s::%s body is `%s`' % (file, fn, code[:300])], sample=[code[:120]])
